@@ -56,7 +56,10 @@ fn hist(args: &[String]) {
     let fwonly = args.get(5).map(|s| s == "fw").unwrap_or(false);
     let ptfc = args.get(5).map(|s| s == "ptfc").unwrap_or(false);
     let ptfc_chain = args.get(5).map(|s| s == "ptfc-chain").unwrap_or(false);
-    let tfcmode = ptfc || ptfc_chain || args.get(5).map(|s| s == "tfc").unwrap_or(false);
+    let gtfc = args.get(5).map(|s| s == "gtfc").unwrap_or(false);
+    let gptfc = args.get(5).map(|s| s == "gptfc").unwrap_or(false);
+    let ptfc = ptfc || gptfc;
+    let tfcmode = ptfc || ptfc_chain || gtfc || args.get(5).map(|s| s == "tfc").unwrap_or(false);
     let layered = args.get(5).map(|s| s == "layered").unwrap_or(false);
     let cyclic_all = args.get(5).map(|s| s == "cyclic-all").unwrap_or(false);
     let cyclic_ng = args.get(5).map(|s| s == "cyclic-nogroup").unwrap_or(false);
@@ -76,7 +79,7 @@ fn hist(args: &[String]) {
     let only: Option<u64> = std::env::var("QV_ONLY").ok().and_then(|s| s.parse().ok());
     for k in 0..n {
         let g = GenCfg { max_nodes: 10, max_ops: 14, allow_fw: !basic && (!cyclic || cyclic_all), allow_proj: !basic && !fwonly && (!cyclic || cyclic_all), allow_ext: !basic && !fwonly, allow_group: !basic && !fwonly && !cyclic_ng, restarts: cfg != "mem", cyclic, layered };
-        let s = if tfcmode { gen_scenario_tfc(&mut r, ptfc || ptfc_chain, ptfc_chain) } else { gen_scenario(&mut r, &g) };
+        let s = if tfcmode { gen_scenario_tfc(&mut r, ptfc || ptfc_chain, ptfc_chain, gtfc || gptfc) } else { gen_scenario(&mut r, &g) };
         if let Some(only) = only { if only != k { continue; } }
         if std::env::var("QV_TRACE_SCN").is_ok() { std::fs::write(format!("{dir}/current.txt"), scenario_coq(&s)).unwrap(); }
         let done = runtime.block_on(async { tokio::time::timeout(Duration::from_secs(hang_secs), run_scenario(&s, &cfg, cyclic)).await });
